@@ -1,5 +1,5 @@
 (* C12 — queued RDM requests complete exactly once, in order, one at a time.
-   Only theorem statements; proofs are in ProofsT/B/C.v and Proofs.v.
+   Only theorem statements; proofs are in ProofsT/F/A/B/C/D/R/E.v and Proofs.v.
 
    A history is a list of top-level operations (Model.op): Submit cb (cb = the operations the
    request's completion callback performs, recursively), Disc full cb, Pause, Resume, Deliver reply
@@ -11,7 +11,7 @@
    `run_history` runs a whole history and then destroys the controller. *)
 From OlaBase Require Import Bytes.
 From Coq Require Import Sorted.
-From C12 Require Import Gen Model ProofsT ProofsB ProofsC Proofs.
+From C12 Require Import Gen Model ProofsT ProofsA ProofsB ProofsC ProofsD ProofsR ProofsE Proofs.
 Local Open Scope N_scope.
 
 (* the constants the model and the statements below use are those of the headers *)
@@ -33,30 +33,116 @@ Proof.
 Qed.
 Print Assumptions c12_total.
 
-(* Exactly once, in order (partial: the clause "with its own reply" is not part of this theorem).
+(* At most one request or discovery is outstanding on the underlying port at every instant of every
+   history (m_out / m_dout = the calls the mock underlying controller has received and not yet
+   answered); g_conc, the largest number of calls outstanding at once as counted by the mock at every
+   call it receives (that call included), never exceeds 1; the in-flight flag is set exactly while a
+   request is outstanding; and the "response but the queue was empty" (OLA_FATAL) and
+   front()-of-empty-queue branches are never taken. *)
+Theorem c12_one_outstanding : forall max discov ms ds s ag,
+  reachable max discov ms ds s ag ->
+  len (m_out s) + len (m_dout s) <= 1 /\ g_conc s <= 1 /\ g_fatal s = false /\
+  (s_pending s = true <-> m_out s <> []).
+Proof. exact reach_outstanding. Qed.
+Print Assumptions c12_one_outstanding.
+
+(* Exactly once, in order, each with its own reply.
    After any history followed by destruction: every request ever submitted (ids 0 .. h_next-1, in
    submission order) has exactly one completion and nothing else was completed; the completions of
    the requests that were queued (everything except queue-full rejections) occur in strictly
-   increasing id order, i.e. submission order; every completion that is not an answer delivered from
-   the underlying controller (queue-full rejection, destruction) carries RDM_FAILED_TO_SEND and no
-   response; nothing is left in the queue.  And at every instant of every history no request has
-   completed twice and the queued requests completed so far did so in submission order. *)
-Theorem c12_once_in_order_partial :
+   increasing id order, i.e. submission order; every completion that is not an answer (queue-full
+   rejection, destruction) carries RDM_FAILED_TO_SEND and no response; nothing is left queued.
+   Own reply: every answered completion of request k was built only from answers that the underlying
+   controller produced for dispatches of request k (c_from: the ids of the dispatches whose answers
+   were consumed, recorded by the mock when it answers), and if it carries a response its parameter
+   data is the concatenation of exactly those answers' data, each of which carries the tag k the mock
+   put in front when answering a dispatch of k.
+   A submission is rejected exactly when the number of accepted, uncompleted requests has reached
+   the limit (h_open is the harness' own count, g_rj counts disagreements).
+   And at every instant of every history no request has completed twice and the queued requests
+   completed so far did so in submission order. *)
+Theorem c12_once_in_order :
   (forall max discov ms ds h f,
      run_history max discov ms ds h = Some f ->
      (forall i, count_id i (g_done f) = if i <? h_next f then 1%nat else O) /\
      StronglySorted N.lt (accepted_ids (g_done f)) /\
      Forall (fun c => c_kind c = K_ANSWERED \/ c_reply c = mkReply RDM_FAILED_TO_SEND None 0) (g_done f) /\
-     s_queue f = []) /\
+     s_queue f = [] /\
+     Forall (fun c => c_kind c = K_ANSWERED ->
+               c_from c <> [] /\ Forall (fun x => x = c_id c) (c_from c) /\
+               match r_resp (c_reply c) with
+               | Some rs => rs_data rs = concat (c_parts c) /\
+                            Forall (fun p => exists d, p = c_id c :: d) (c_parts c) /\ c_parts c <> [] /\
+                            ((2 <= length (c_parts c))%nat ->
+                             len (rs_data rs) <= MAX_OVERFLOW_SIZE /\ rs_type rs = RDM_ACK)
+               | None => True
+               end) (g_done f)) /\
   (forall max discov ms ds s ag,
      reachable max discov ms ds s ag ->
-     (forall i, (count_id i (g_done s) <= 1)%nat) /\ StronglySorted N.lt (accepted_ids (g_done s))).
+     (forall i, (count_id i (g_done s) <= 1)%nat) /\ StronglySorted N.lt (accepted_ids (g_done s)) /\
+     h_open s = len (s_queue s) /\ g_rj s = 0).
 Proof.
   split.
-  - intros max discov ms ds h f H. exact (history_final _ _ _ _ _ _ H).
-  - intros max discov ms ds s ag H. exact (reach_once _ _ _ _ _ _ H).
+  - intros max discov ms ds h f H.
+    destruct (history_final _ _ _ _ _ _ H) as (A & B & C & D).
+    split; [exact A|]. split; [exact B|]. split; [exact C|]. split; [exact D|].
+    exact (history_own _ _ _ _ _ _ H).
+  - intros max discov ms ds s ag H.
+    destruct (reach_once _ _ _ _ _ _ H) as [A B]. destruct (reach_R _ _ _ _ _ _ H) as [C D]. auto.
 Qed.
-Print Assumptions c12_once_in_order_partial.
+Print Assumptions c12_once_in_order.
+
+(* ACK_OVERFLOW: at every instant of every history, every answered completion that carries a
+   response has as parameter data the in-order concatenation of the parts it was built from (one
+   part per answer consumed, each an answer to a dispatch of that same request); a response built
+   from two or more parts is an RDM_ACK of at most MAX_OVERFLOW_SIZE (4096) bytes.  While a sequence
+   is in progress the accumulator belongs to the request at the head of the queue and is the
+   concatenation of the parts received so far; when no sequence is in progress nothing is
+   accumulated.  (That a sequence yields exactly one completion - the combined response or a single
+   error - is c12_once_in_order: each request completes exactly once.) *)
+Theorem c12_overflow : forall max discov ms ds s ag,
+  reachable max discov ms ds s ag ->
+  Forall (fun c => c_kind c = K_ANSWERED ->
+            match r_resp (c_reply c) with
+            | Some rs => rs_data rs = concat (c_parts c) /\
+                         Forall (fun p => exists d, p = c_id c :: d) (c_parts c) /\ c_parts c <> [] /\
+                         ((2 <= length (c_parts c))%nat ->
+                          len (rs_data rs) <= MAX_OVERFLOW_SIZE /\ rs_type rs = RDM_ACK)
+            | None => True
+            end) (g_done s) /\
+  match s_resp s with
+  | Some c => exists i cb rest, s_queue s = (i, cb) :: rest /\
+                rs_data c = concat (g_parts s) /\
+                Forall (fun p => exists d, p = i :: d) (g_parts s) /\ g_parts s <> [] /\
+                ((2 <= length (g_parts s))%nat -> len (rs_data c) <= MAX_OVERFLOW_SIZE /\ rs_type c = RDM_ACK)
+  | None => g_parts s = [] /\ g_from s = []
+  end.
+Proof.
+  intros max discov ms ds s ag H. destruct (reach_D _ _ _ _ _ _ H) as [Hd Hr]. split.
+  - eapply Forall_impl; [|exact Hd]. intros c Hc Hk. destruct (Hc Hk) as (_ & _ & Hx). exact Hx.
+  - destruct (s_resp s); [|exact Hr].
+    destruct Hr as (i & cb & rest & Hq & Hok & _). exists i, cb, rest. split; [exact Hq|exact Hok].
+Qed.
+Print Assumptions c12_overflow.
+
+(* Discovery: at every instant of every history, the discovery requests made so far (numbered
+   0 .. h_ndid-1 in request order) are, in order, exactly the requests taken by the runs started so
+   far (run by run) followed by those still waiting - so every request is taken by exactly one run and
+   a run takes all requests waiting when it starts (in particular all those queued while the previous
+   run was in progress); every run served at least one request and was full iff one of the requests
+   it took asked for full; no discovery callback has run twice; and every callback that has run was
+   run by the completion of the run that took its request.  (With c12_one_outstanding: runs never
+   overlap.) *)
+Theorem c12_discovery_coalesce : forall max discov ms ds s ag,
+  reachable max discov ms ds s ag ->
+  flat_map (fun e : N * bool * list (bool * N) => map snd (snd e)) (g_runs s) ++
+    map (fun e : bool * N * list op => snd (fst e)) (s_pdisc s) = nseq (N.to_nat (h_ndid s)) /\
+  Forall (fun e : N * bool * list (bool * N) => snd (fst e) = existsb fst (snd e) /\ snd e <> []) (g_runs s) /\
+  NoDup (map fst (g_ddone s)) /\
+  Forall (fun x : N * N => exists full reqs, In (snd x, full, reqs) (g_runs s) /\ In (fst x) (map snd reqs))
+         (g_ddone s).
+Proof. exact reach_discovery. Qed.
+Print Assumptions c12_discovery_coalesce.
 
 (* Nothing is sent while paused: at every instant of every history the user-level paused flag (set
    by the Pause operation, cleared by the Resume operation just before Resume() is called) is the
@@ -82,7 +168,9 @@ Example c12_example :
                              match r_resp (c_reply c) with Some r => rs_data r | None => [] end))
                   (g_done f) =
               [(0, 0, [0; 7]); (1, 0, [1; 5; 1; 7]); (2, 0, [2; 7]); (5, 1, []); (3, 2, []); (4, 2, [])]
-              /\ g_conc f = 1 /\ g_psends f = 0
+              /\ g_conc f = 1 /\ g_psends f = 0 /\ g_rj f = 0 /\ dv_of f = O /\
+              map (fun e => (fst (fst e), snd (fst e), map snd (snd e))) (g_runs f) = [(0, true, [0])] /\
+              g_ddone f = [(0, 0)]
   | None => False
   end.
 Proof. vm_compute. repeat split. Qed.
